@@ -1918,7 +1918,7 @@ struct TemplateCore {
         while (offset < end_offset) {
             switch (content[offset]) {
                 case QOperationSymbol::OrExp: { // ||
-                    if (content[(offset + 1)] == QOperationSymbol::OrExp) {
+                    if (((offset + 1) < end_offset) && content[(offset + 1)] == QOperationSymbol::OrExp) {
                         return QOperation::Or;
                     }
 
@@ -1926,7 +1926,7 @@ struct TemplateCore {
                 }
 
                 case QOperationSymbol::AndExp: { // &&
-                    if (content[(offset + 1)] == QOperationSymbol::AndExp) {
+                    if (((offset + 1) < end_offset) && content[(offset + 1)] == QOperationSymbol::AndExp) {
                         return QOperation::And;
                     }
 
@@ -1934,7 +1934,7 @@ struct TemplateCore {
                 }
 
                 case QOperationSymbol::GreaterExp: { // > or >=
-                    if (content[(offset + 1)] == QOperationSymbol::EqualExp) {
+                    if (((offset + 1) < end_offset) && content[(offset + 1)] == QOperationSymbol::EqualExp) {
                         return QOperation::GreaterOrEqual;
                     }
 
@@ -1942,7 +1942,7 @@ struct TemplateCore {
                 }
 
                 case QOperationSymbol::LessExp: { // < or <=
-                    if (content[(offset + 1)] == QOperationSymbol::EqualExp) {
+                    if (((offset + 1) < end_offset) && content[(offset + 1)] == QOperationSymbol::EqualExp) {
                         return QOperation::LessOrEqual;
                     }
 
@@ -1950,7 +1950,7 @@ struct TemplateCore {
                 }
 
                 case QOperationSymbol::NotExp: { // !=
-                    if (content[(offset + 1)] == QOperationSymbol::EqualExp) {
+                    if (((offset + 1) < end_offset) && content[(offset + 1)] == QOperationSymbol::EqualExp) {
                         return QOperation::NotEqual;
                     }
 
@@ -1958,7 +1958,7 @@ struct TemplateCore {
                 }
 
                 case QOperationSymbol::EqualExp: { // ==
-                    if (content[(offset + 1)] == QOperationSymbol::EqualExp) {
+                    if (((offset + 1) < end_offset) && content[(offset + 1)] == QOperationSymbol::EqualExp) {
                         return QOperation::Equal;
                     }
 
